@@ -124,6 +124,9 @@ def run_history(v, h, toks, hid, rnd, page_size, nrows, tier):
     listings = []
     batch, hist = [], [{"t": "open", "cc": header_counters(snaps[0])[0], "cookie": header_counters(snaps[0])[1]}]
     hid_ops = []
+    # the handle is opened first of all (on the file as it is now) and reads nothing until the history says so: commits
+    # that come before its first read meet a handle that only knows what it saw at open
+    batch.append({"op": "noop", "id": 0})
 
     def next_id():
         return len(batch)
@@ -305,6 +308,8 @@ def run(tier):
     h = common.build_harness()
     nsim = 3 if tier == "quick" else 24
     beh = behaviours(v, nsim, 70 if tier == "quick" else 120, common.seed() + 1)
+    # one more fixed history: the file is rebuilt with another page size before the handle has read anything
+    beh.append(["commit:=vacuum_pagesize", "read", "read", "commit:=grow", "read", "commit:=alter_add", "read", "commit:=vacuum_pagesize", "read"])
     hsum = []
     for i, toks in enumerate(beh):
         if tier == "quick":
